@@ -174,6 +174,8 @@ func (r *Resolver) Close() {
 
 func (r *Resolver) watch() {
 	for {
+		verifYield("resolver:poll:start")
+
 		state, err := r.resolve()
 		if err == nil && state != nil { // state is nil when it hasn't changed
 			r.watcher.UpdateDesc(state)
@@ -182,10 +184,14 @@ func (r *Resolver) watch() {
 			r.logger.Error("resolution unrecoverably failed, will retry again later", "error", err)
 		}
 
+		verifYield("resolver:poll:before-select")
+
 		select {
 		case <-r.afterInterval():
 		case <-r.resolveNow:
+			verifYield("resolver:poll:woken")
 			r.newResolveNow()
+			verifYield("resolver:poll:rearmed")
 		case <-r.done:
 			close(r.done)
 			return
@@ -211,6 +217,7 @@ func (r *Resolver) newResolveNow() {
 	f := sync.OnceFunc(func() {
 		close(r.resolveNow)
 	})
+	f = verifWrapNotify(f)
 	r.notifyResolveNow.Store(&f)
 }
 
